@@ -239,7 +239,7 @@ func (d *c01Data) genRequest(w *World, p *Peer, servers, clients []*LFeat) *c01R
 		r.cl = model.CmdClassifierTypeWrite
 		r.src, r.dst = pClient.Address(), sf.Address()
 		item := w.GenItem(fi.ItemType, []uint{0}, 1, 1, nil)
-		cmd.SetDataForFunction(fi.Fn, GenList(fi, []reflect.Value{item}))
+		SetCmdData(&cmd, fi.Fn, GenList(fi, []reflect.Value{item}))
 		cmd.Function = util.Ptr(fi.Fn)
 		cmd.Filter = append(cmd.Filter, *MakeFilter(fi, "partial", nil, nil))
 		bound := d.bound[p.Name+"|"+AddrStr(pClient.Address())+"|"+AddrStr(sf.Address())]
@@ -247,7 +247,7 @@ func (d *c01Data) genRequest(w *World, p *Peer, servers, clients []*LFeat) *c01R
 		w.Probe(fmt.Sprintf("c01-protected-write-bound-%v", bound))
 	case kind < 3: // read
 		r.cl = model.CmdClassifierTypeRead
-		cmd.SetDataForFunction(fi.Fn, empty)
+		SetCmdData(&cmd, fi.Fn, empty)
 		r.src = pClient.Address()
 		switch w.T.Choose(4, "read-dst") {
 		case 0, 1:
@@ -275,7 +275,7 @@ func (d *c01Data) genRequest(w *World, p *Peer, servers, clients []*LFeat) *c01R
 			r.dst = sf.Address()
 			r.desc += "-to-server-feature"
 		}
-		cmd.SetDataForFunction(fi.Fn, w.GenData(fi))
+		SetCmdData(&cmd, fi.Fn, w.GenData(fi))
 		r.expect = acceptExpect
 		switch w.T.Choose(5, "update-shape") {
 		case 0: // partial filter
@@ -299,7 +299,7 @@ func (d *c01Data) genRequest(w *World, p *Peer, servers, clients []*LFeat) *c01R
 	case kind < 7: // write
 		r.cl = model.CmdClassifierTypeWrite
 		r.src, r.dst = pClient.Address(), sf.Address()
-		cmd.SetDataForFunction(fi.Fn, w.GenData(fi))
+		SetCmdData(&cmd, fi.Fn, w.GenData(fi))
 		writable := false
 		for _, f := range sf.Funcs {
 			if f.Fn == fi.Fn && f.W {
@@ -319,7 +319,7 @@ func (d *c01Data) genRequest(w *World, p *Peer, servers, clients []*LFeat) *c01R
 	case kind < 8: // call on an ordinary feature
 		r.cl = model.CmdClassifierTypeCall
 		r.src, r.dst = pClient.Address(), sf.Address()
-		cmd.SetDataForFunction(fi.Fn, w.GenData(fi))
+		SetCmdData(&cmd, fi.Fn, w.GenData(fi))
 		r.expect, r.desc = "error", "call-on-ordinary-feature"
 	case kind < 10: // subscription call on node management
 		r.cl = model.CmdClassifierTypeCall
